@@ -230,6 +230,15 @@ def r2(ctx):
         if kind == "call" and payload.callee() == nx.path:
             rule.ok("%s: result of the recursive next() after the state was advanced" % arm)
             continue
+        if kind == "rv" and payload.k == "use" and payload.ops and payload.ops[0].place is not None:
+            # the scanner's answer handed on whole (`let next = self.next_out(i); self.state = match next {..}; next`)
+            whole = roots(prov.operand(payload.ops[0]))
+            if whole and all(x[0] == "call" and x[1] in (nin, nout) for x in whole):
+                want = nin if arm == "ZoomIn" else nout
+                for x in whole:
+                    rule.check(x[1] == want, "%s yields the answer of %s" % (arm, x[1].split("::")[-1]),
+                               "%s|wrong-scanner" % arm, "the %s arm yields an index found by %s" % (arm, x[1].split("::")[-1]), loc=loc)
+                continue
         if not (kind == "rv" and payload.k == "agg" and payload.j.get("variant") == "Some"):
             rule.fail("%s|unrecognised-yield" % arm, "unrecognised yield in the %s arm" % arm, loc=loc)
             continue
